@@ -122,6 +122,20 @@ func treeAlphabet(r *Rng, t *Tree, extra []File) []Op {
 		Op{Kind: "response", Name: "sitepage", Data: &Val{T: "map", K: []string{"site"}, V: []Val{{T: "sharedptr", I: 0}}}},
 		Op{Kind: "evalstr", Src: "{{ site.name }}/{{ site.year }}", Data: &Val{T: "map", K: []string{"site"}, V: []Val{{T: "sharedptr", I: 0}}}},
 	)
+	// the caller changes its own long-lived object in place between renders
+	sp1 := &Val{T: "map", K: []string{"site"}, V: []Val{{T: "sharedptr", I: 1}}}
+	ops = append(ops,
+		Op{Kind: "string", Name: "sitepage", Data: sp1, PreMutate: 1},
+		Op{Kind: "string", Name: "sitepage", Data: sp1, PreMutate: 2},
+		Op{Kind: "evalstr", Src: "{{ site.links }}", Data: sp1, PreMutate: 3},
+	)
+	// deeply nested data (conversion depth), and data values that print alike under %v
+	ops = append(ops,
+		Op{Kind: "evalstr", Src: "{{ deep.d.d.d.d }}", Data: &Val{T: "map", K: []string{"deep"}, V: []Val{{T: "deep", I: 40}}}},
+		Op{Kind: "string", Name: "deeppage", Data: &Val{T: "map", K: []string{"deep"}, V: []Val{{T: "deep", I: 38}}}},
+		Op{Kind: "evalfile", Name: t.path("coal"), Data: &Val{T: "map", K: []string{"tags", "q"}, V: []Val{{T: "strs", A: []Val{VStr("go templates")}}, VInt(7)}}},
+		Op{Kind: "evalfile", Name: t.path("coal"), Data: &Val{T: "map", K: []string{"tags", "q"}, V: []Val{{T: "strs", A: []Val{VStr("go"), VStr("templates")}}, VStr("7")}}},
+	)
 	// EvaluateFile on pages that use a layout / components (as a string they cannot link them)
 	for i, p := range t.Pages {
 		if i < 2 {
@@ -182,6 +196,8 @@ func genC16Tree(r *Rng) (*Scenario, *Tree, []Op) {
 		File{Path: t.path("constarr"), Data: "{{ xs = [\"s\", \"m\", \"l\"].append(s0) }}@each(x in xs)[{{ x }}]@end{{ [1, 2, 3, 4, 5].append(n1) }}|{{ [7, 8, 9].prepend(n1) }}", Role: "page"},
 		File{Path: t.path("twofuncs"), Data: "@for(i = 0; i < 3; i++){{ s0.shout(i) }}{{ b0.flip() }}{{ [1, 2, 3].rev() }}{{ s0.shout(1) }};@end", Role: "page"},
 		File{Path: t.path("sitepage"), Data: "<h1>{{ site.name }}</h1>{{ site.year }} {{ site.links }}", Role: "page"},
+		File{Path: t.path("deeppage"), Data: "<p>{{ deep.d.d.d }}</p>", Role: "page"},
+		File{Path: t.path("coal"), Data: "{{ tags.len() }}|{{ q }}|{{ tags }}", Role: "page"},
 		File{Path: t.path("assigner"), Data: "{{ title = \"Oops\" }}{{ count = 7 }}<i>{{ title }}</i>", Role: "page"},
 		File{Path: t.path("reader"), Data: "<u>{{ title }}{{ count }}</u>", Role: "page"},
 		File{Path: t.path("floaty"), Data: "@for(f = 2.0; f > 0.0; f--)[{{ f }}]@end{{ base = 9.5 }}{{ base-- }}|{{ n = 3 }}{{ n++ }}|{{ g = 1.5 }}{{ g++ }}", Role: "page"},
@@ -338,13 +354,31 @@ func (p c16) violation(sc *Scenario, ops []Op, base map[string]Obs, res c16Resul
 		for _, o := range hist[:len(hist)-1] {
 			pre = append(pre, opClass(o, base[opKey(o)]))
 		}
-		sig = "after[" + strings.Join(pre, ",") + "] affected[" + opClass(aff, base[opKey(aff)]) + "] field:" + diffFieldFull(res.exp, res.got)
+		sig = "after[" + strings.Join(rle(pre), ",") + "] affected[" + opClass(aff, base[opKey(aff)]) + "] field:" + diffFieldFull(res.exp, res.got)
 	}
 	s := sc.Clone()
 	s.Ops = hist
 	return &Violation{Prop: "C16", Clause: "an operation's result differs from the result of the same operation issued first in a fresh state",
 		Sig: sig, Scenario: s, Detail: fmt.Sprintf("history %v; last operation deviates", opsSummary(hist)),
 		Expected: res.exp.Short(), Got: res.got.Short()}
+}
+
+// rle collapses runs of equal strings: a,a,a,b -> a x3,b
+func rle(xs []string) []string {
+	var out []string
+	for i := 0; i < len(xs); {
+		j := i
+		for j < len(xs) && xs[j] == xs[i] {
+			j++
+		}
+		if j-i > 1 {
+			out = append(out, fmt.Sprintf("%s x%d", xs[i], j-i))
+		} else {
+			out = append(out, xs[i])
+		}
+		i = j
+	}
+	return out
 }
 
 func diffFieldFull(a, b Obs) string {
@@ -437,6 +471,15 @@ func (p c16) Run(seed uint64, run int, tier string, acc *Acc) *Violation {
 	var ops []Op
 	for i := 0; i < n; i++ {
 		ops = append(ops, Pick(r, alpha))
+	}
+	if r.Chance(8) {
+		// bounded caches: many distinct names are resolved between two renders of the same name
+		a := Pick(r, alpha)
+		ops = append(ops, a)
+		for i := 0; i < 70; i++ {
+			ops = append(ops, Op{Kind: "string", Name: fmt.Sprintf("nf/missing-%d", i), Data: nil})
+		}
+		ops = append(ops, a, Op{Kind: "string", Name: "pagefail", Data: t.Data}, Op{Kind: "string", Name: "nf/missing-0", Data: nil})
 	}
 	if r.Chance(10) {
 		// threshold effects: the same two operations many times over
